@@ -21,6 +21,7 @@
 #include "cppBisonDefs.h"
 
 #include "vector_string.h"
+#include <ctype.h>
 #include <unordered_set>
 
 class CPPExpression;
@@ -38,6 +39,17 @@ public:
   // that occurrence of the name is never expanded again, wherever the text
   // ends up.  It is dropped when the name is finally read as a token.
   static const char no_expand_mark = '\001';
+
+  // Written between two tokens of an expansion that are not separated by
+  // white space but must not be read as one token (the - of a replacement
+  // list followed by an argument -1).  Every scanner treats it like white
+  // space, except that # does not turn it into a space.
+  static const char token_separator = '\002';
+
+  // True for white space and for the token separator.
+  static bool is_blank(int c) {
+    return c == token_separator || (c >= 0 && c < 256 && isspace(c));
+  }
 
   CPPManifest(const CPPPreprocessor &parser, const std::string &args, const cppyyltype &loc);
   CPPManifest(const CPPPreprocessor &parser, const std::string &macro, const std::string &definition);
